@@ -16,6 +16,10 @@
    * the document tree built by _TextCueParser only grows at the right edge (the `parent` pointer and the
      ruby_rbc / ruby_rtc pointers always designate open elements on the path from the paragraph to the
      current parent), so it is modelled by a zipper: `stack` holds the open elements, innermost first.
+   * a timestamp tag adds no element: it sets `self.begin` (p_begin), which every text span created afterwards
+     carries as its begin relative to the cue (f39339e).
+   * the cue box is limited to the root container: parse_vtt_pct rejects values above 100, line numbers beyond the
+     grid are moved onto it, the size is limited by the position (WebVTT 7.2 maximum size) and by the default origin.
    * Python exceptions that escape to_model are an explicit outcome.
    No proofs in this file. *)
 From Coq Require Import QArith Qminmax.
@@ -110,7 +114,8 @@ Definition vtt_timestamp_to_secs (s : text) : option Q :=
   match timestamp_ms s with Some ms => Some (Qmake ms 1000) | None => None end.
 
 (* ---------------------------------------------------------------- parse_vtt_pct, parse_vtt_int *)
-(* _VTT_PCT_RE: one or more digits, an optional dot, any digits, a percent sign; then round(float(group 1)) *)
+(* _VTT_PCT_RE: one or more digits, an optional dot, any digits, a percent sign; then round(float(group 1));
+   a rounded value above 100 is not a percentage (None) *)
 Definition parse_vtt_pct (value : text) : option Z :=
   let d1 := take_while is_digit value in
   let r1 := drop_while is_digit value in
@@ -118,7 +123,10 @@ Definition parse_vtt_pct (value : text) : option Z :=
   let r2 := match r1 with 46 :: r => r | _ => r1 end in
   let d2 := take_while is_digit r2 in
   let r3 := drop_while is_digit r2 in
-  if text_eqb r3 [37] then Some (round_he (dec_value (d1 ++ d2)) (10 ^ Z.of_nat (length d2))) else None.
+  if text_eqb r3 [37] then
+    let pct := round_he (dec_value (d1 ++ d2)) (10 ^ Z.of_nat (length d2)) in
+    if pct <=? 100 then Some pct else None
+  else None.
 
 (* _VTT_INT_RE: optional minus and 1 to 20 digits; then int() *)
 Definition parse_vtt_int (value : text) : option Z :=
@@ -206,16 +214,17 @@ Definition stage_align (cue_settings : list text) (writing_mode : wmode) : talig
     else TACenter
   | None => TACenter
   end.
-(* line: percentage, else line number *)
+(* line: percentage, else line number (0 is the first line, negative numbers count from the last line); a line
+   number beyond the grid is moved onto the root container: min(max(line_offset, 0), 100) *)
+Definition clamp100 (x : Q) : Q := Qmin (Qmax x 0) 100.
 Definition line_offset_of (writing_mode : wmode) (v0 : text) : option Q :=
   match parse_vtt_pct v0 with
   | Some p => Some (qz p)
   | None =>
     match parse_vtt_int v0 with
     | Some line_num =>
-      if horizontal writing_mode
-      then Some (if 0 <? line_num then (100 * qz line_num / rows_q)%Q else (100 - 100 * qz line_num / rows_q)%Q)
-      else Some (if 0 <? line_num then (100 * qz line_num / cols_q)%Q else (100 - 100 * qz line_num / cols_q)%Q)
+      let n := if horizontal writing_mode then rows_q else cols_q in
+      Some (clamp100 (if 0 <=? line_num then (100 * qz line_num / n)%Q else (100 + 100 * qz line_num / n)%Q))
     | None => None
     end
   end.
@@ -235,7 +244,7 @@ Definition stage_line (cue_settings : list text) (writing_mode : wmode) (extent_
           (eh, extent_width, default_ox, (lo - eh / 2)%Q, DACenter)
         else
           let ew := (Qmin lo (100 - lo) * 2)%Q in
-          (extent_height, ew, (lo - extent_height / 2)%Q, default_oy, DACenter)    (* sic: extent_height *)
+          (extent_height, ew, (lo - ew / 2)%Q, default_oy, DACenter)
       else if text_eqb line_align s_start then
         if horizontal writing_mode then ((100 - lo)%Q, extent_width, default_ox, lo, DABefore)
         else (extent_height, (100 - lo)%Q, lo, default_oy, DABefore)
@@ -247,9 +256,11 @@ Definition stage_line (cue_settings : list text) (writing_mode : wmode) (extent_
     end
   | None => unchanged
   end.
-(* position: (origin_x, origin_y) *)
+(* position: the size is first limited by the room the position leaves (WebVTT 7.2 "maximum size");
+   (extent_height, extent_width, origin_x, origin_y) *)
 Definition stage_position (cue_settings : list text) (writing_mode : wmode) (text_align : talign)
-           (extent_height extent_width origin_x origin_y : Q) : Q * Q :=
+           (extent_height extent_width origin_x origin_y : Q) : Q * Q * Q * Q :=
+  let unchanged := (extent_height, extent_width, origin_x, origin_y) in
   match setting s_position cue_settings with
   | Some v =>
     let value := split_on 44 v in
@@ -265,17 +276,24 @@ Definition stage_position (cue_settings : list text) (writing_mode : wmode) (tex
     match parse_vtt_pct (nth_text 0 value) with
     | Some p =>
       let position := qz p in
+      let max_size :=
+        if text_eqb line_align s_center then (2 * Qmin position (100 - position))%Q
+        else if text_eqb line_align s_line_left then (100 - position)%Q
+        else position in
+      let extent_width := if horizontal writing_mode then Qmin extent_width max_size else extent_width in
+      let extent_height := if horizontal writing_mode then extent_height else Qmin extent_height max_size in
       if text_eqb line_align s_center then
-        if horizontal writing_mode then ((position - extent_width / 2)%Q, origin_y)
-        else (origin_x, (position - extent_height / 2)%Q)
+        if horizontal writing_mode then (extent_height, extent_width, (position - extent_width / 2)%Q, origin_y)
+        else (extent_height, extent_width, origin_x, (position - extent_height / 2)%Q)
       else if text_eqb line_align s_line_left then
-        if horizontal writing_mode then (position, origin_y) else (origin_x, position)
+        if horizontal writing_mode then (extent_height, extent_width, position, origin_y)
+        else (extent_height, extent_width, origin_x, position)
       else (* line-right: the only remaining value *)
-        if horizontal writing_mode then ((position - extent_width)%Q, origin_y)
-        else (origin_x, (position - extent_height)%Q)
-    | None => (origin_x, origin_y)
+        if horizontal writing_mode then (extent_height, extent_width, (position - extent_width)%Q, origin_y)
+        else (extent_height, extent_width, origin_x, (position - extent_height)%Q)
+    | None => unchanged
     end
-  | None => (origin_x, origin_y)
+  | None => unchanged
   end.
 
 Definition compute_region (cue_settings : list text) : region :=
@@ -284,8 +302,11 @@ Definition compute_region (cue_settings : list text) : region :=
   let text_align := stage_align cue_settings writing_mode in
   let '(extent_height, extent_width, origin_x, origin_y, display_align) :=
     stage_line cue_settings writing_mode extent_height extent_width in
-  let '(origin_x, origin_y) :=
+  let '(extent_height, extent_width, origin_x, origin_y) :=
     stage_position cue_settings writing_mode text_align extent_height extent_width origin_x origin_y in
+  (* without a (valid) position the box starts at its default origin: the same limit applies *)
+  let extent_width := Qmin extent_width (100 - origin_x) in
+  let extent_height := Qmin extent_height (100 - origin_y) in
   mkRegion writing_mode origin_x origin_y extent_width extent_height display_align text_align.
 
 Definition region_eqb (a b : region) : bool :=
@@ -331,7 +352,8 @@ Record pstate := mkP {
   p_root : list elem;          (* children of the paragraph so far *)
   p_stack : list frame;        (* open elements, innermost first; [] = the paragraph is the parent *)
   p_above : Z;                 (* 0: inside the paragraph; 1: parent is the div; 2: the body; 3: None *)
-  p_ruby : bool                (* self.ruby_rbc / self.ruby_rtc are not None *)
+  p_ruby : bool;               (* self.ruby_rbc / self.ruby_rtc are not None *)
+  p_begin : option Q           (* self.begin: relative begin of the text that follows the last valid timestamp tag *)
 }.
 
 Definition close_frame (f : frame) : elem :=
@@ -347,7 +369,7 @@ Definition attach (e : elem) (root : list elem) (stack : list frame) : list elem
 Definition pop (s : pstate) : pstate :=
   match p_stack s with
   | [] => s
-  | f :: st => let '(r, st') := attach (close_frame f) (p_root s) st in mkP r st' (p_above s) (p_ruby s)
+  | f :: st => let '(r, st') := attach (close_frame f) (p_root s) st in mkP r st' (p_above s) (p_ruby s) (p_begin s)
   end.
 Fixpoint close_all (fuel : nat) (s : pstate) : pstate :=
   match fuel with O => s | S f => match p_stack s with [] => s | _ => close_all f (pop s) end end.
@@ -368,17 +390,9 @@ Definition make_span_attrs (s : pstate) : attrs :=
   if parent_is_p s then mkAttrs None (Some default_bg_color) None false false false None else no_attrs.
 
 Definition add_leaf (e : elem) (s : pstate) : pstate :=
-  let '(r, st) := attach e (p_root s) (p_stack s) in mkP r st (p_above s) (p_ruby s).
+  let '(r, st) := attach e (p_root s) (p_stack s) in mkP r st (p_above s) (p_ruby s) (p_begin s).
 Definition open_node (k : nkind) (a : attrs) (s : pstate) : pstate :=
-  mkP (p_root s) (FNode k a [] :: p_stack s) (p_above s) (p_ruby s).
-
-(* first non-None begin from the innermost open element up to the paragraph *)
-Fixpoint stack_begin (st : list frame) (pbegin : Q) : Q :=
-  match st with
-  | [] => pbegin
-  | FNode _ a _ :: st' => match a_begin a with Some b => b | None => stack_begin st' pbegin end
-  | FRuby _ _ :: st' => stack_begin st' pbegin
-  end.
+  mkP (p_root s) (FNode k a [] :: p_stack s) (p_above s) (p_ruby s) (p_begin s).
 
 Definition s_ruby : text := [114;117;98;121].
 Definition s_rt : text := [114;116].
@@ -426,11 +440,10 @@ Definition handle_start (tag0 : text) (classes : option (list text)) (annot : op
     else if p_above s =? 3 then inr ExAttribute
     else match push_check s CRuby with
          | Some e => inr e
-         | None => inl (mkP (p_root s) (FRuby [] [] :: p_stack s) (p_above s) true)
+         | None => inl (mkP (p_root s) (FRuby [] [] :: p_stack s) (p_above s) true (p_begin s))
          end
-  else if starts_with s_rt tag then
+  else if starts_with s_rt tag && p_ruby s then             (* an rt outside ruby is handled like any unknown tag *)
     if p_above s =? 3 then inr ExAttribute
-    else if negb (p_ruby s) then inr ExAttribute           (* None.push_child *)
     else match pop_to_ruby (length (p_stack s)) s with
          | Some s' => inl (open_node KRt no_attrs s')
          | None => inr ExModelInternal
@@ -443,21 +456,23 @@ Definition handle_start (tag0 : text) (classes : option (list text)) (annot : op
 
 Definition handle_end (attached : bool) (s : pstate) : pstate + exn :=
   if p_above s =? 3 then inr ExAttribute
-  else if 0 <? p_above s then inl (mkP (p_root s) (p_stack s) (p_above s + 1) (p_ruby s))
+  else if 0 <? p_above s then inl (mkP (p_root s) (p_stack s) (p_above s + 1) (p_ruby s) (p_begin s))
   else match p_stack s with
-       | [] => inl (mkP (p_root s) [] (if attached then 1 else 3) (p_ruby s))
-       | FRuby _ _ :: _ => let s' := pop s in inl (mkP (p_root s') (p_stack s') (p_above s') false)
+       | [] => inl (mkP (p_root s) [] (if attached then 1 else 3) (p_ruby s) (p_begin s))
+       | FRuby _ _ :: _ => let s' := pop s in inl (mkP (p_root s') (p_stack s') (p_above s') false (p_begin s'))
        | FNode _ _ _ :: _ => inl (pop s)       (* Rt: Rt -> Rtc -> Ruby is one step of the zipper *)
        end.
 
-(* one line of a string token: Span(Text(line)), wrapped in Rb when the parent is a Ruby *)
+(* one line of a string token: Span(Text(line)) carrying self.begin, wrapped in Rb when the parent is a Ruby *)
+Definition with_begin (b : option Q) (a : attrs) : attrs :=
+  mkAttrs b (a_bg a) (a_color a) (a_bold a) (a_italic a) (a_under a) (a_lang a).
 Definition push_text_line (line : text) (s : pstate) : pstate + exn :=
   if p_above s =? 3 then inr ExAttribute
   else
-    let span := ENode KSpan (make_span_attrs s) [EText line] in
+    let span := ENode KSpan (with_begin (p_begin s) (make_span_attrs s)) [EText line] in
     match p_stack s with
     | FRuby b t :: st =>
-      if p_ruby s then inl (mkP (p_root s) (FRuby (b ++ [ENode KRb no_attrs [span]]) t :: st) (p_above s) (p_ruby s))
+      if p_ruby s then inl (mkP (p_root s) (FRuby (b ++ [ENode KRb no_attrs [span]]) t :: st) (p_above s) (p_ruby s) (p_begin s))
       else inr ExAttribute
     | _ => match push_check s CSpan with Some e => inr e | None => inl (add_leaf span s) end
     end.
@@ -475,17 +490,14 @@ Fixpoint push_text_lines (first : bool) (lines : list text) (s : pstate) : pstat
 Definition handle_string (value : text) (s : pstate) : pstate + exn :=
   push_text_lines true (split_on 10 value) s.
 
+(* a timestamp tag only records the begin (relative to the cue) of the text that follows; an unparsable
+   timestamp or one before the cue's begin is ignored with a warning *)
 Definition handle_ts (pbegin : Q) (ts_text : text) (s : pstate) : pstate + exn :=
-  match push_check s CSpan with
-  | Some e => inr e
-  | None =>
-    let a0 := make_span_attrs s in
-    let parent_begin := stack_begin (p_stack s) pbegin in
-    let b := match vtt_timestamp_to_secs ts_text with
-             | Some ts => if Qle_bool parent_begin ts then Some (ts - parent_begin)%Q else None
-             | None => None
-             end in
-    inl (open_node KSpan (mkAttrs b (a_bg a0) (a_color a0) (a_bold a0) (a_italic a0) (a_under a0) (a_lang a0)) s)
+  match vtt_timestamp_to_secs ts_text with
+  | Some ts =>
+    if Qle_bool pbegin ts then inl (mkP (p_root s) (p_stack s) (p_above s) (p_ruby s) (Some (ts - pbegin)%Q))
+    else inl s
+  | None => inl s
   end.
 
 Definition handle_token (pbegin : Q) (attached : bool) (t : token) (s : pstate) : pstate + exn :=
@@ -503,7 +515,7 @@ Fixpoint handle_tokens (pbegin : Q) (attached : bool) (ts : list token) (s : pst
 
 (* _parse_cue_text: the children of the paragraph, or the exception *)
 Definition parse_cue_text (pbegin : Q) (attached : bool) (cue_text : text) : list elem + exn :=
-  match handle_tokens pbegin attached (tokenize cue_text) (mkP [] [] 0 false) with
+  match handle_tokens pbegin attached (tokenize cue_text) (mkP [] [] 0 false None) with
   | inr e => inr e
   | inl s => inl (p_root (close_all (length (p_stack s)) s))
   end.
